@@ -1,9 +1,11 @@
 package c08
 
 import (
+	"fmt"
 	"os"
 	"strings"
 	"testing"
+	"time"
 
 	"verif/internal/h"
 
@@ -63,9 +65,47 @@ func safeInProcess(req DecodeReq) bool {
 	return true
 }
 
+// inProcessUnsafe is set once an in-process decode did not return within the hard limit: from then on every
+// experiment runs in the (killable) child.
+var inProcessUnsafe bool
+
+// runWatched runs the experiment in-process under the same wall-clock policy as the child (first timeout 60 s, hard
+// limit 480 s, fail-fast after the first expiry). ok=false: it did not return; the goroutine cannot be stopped and is
+// left behind.
+func runWatched(req DecodeReq) (res DecodeRes, ok bool) {
+	done := make(chan DecodeRes, 1)
+	go func() { done <- runDecode(req) }()
+	soft, hard := childSoftTimeout, childHardLimit
+	if childHangSeen {
+		soft, hard = 5*time.Second, 5*time.Second
+	}
+	start := time.Now()
+	select {
+	case res = <-done:
+		return res, true
+	case <-time.After(soft):
+	}
+	select {
+	case res = <-done:
+		res.Slow = true
+		res.Note = fmt.Sprintf("in-process decode answered after %v", time.Since(start).Round(time.Second))
+		return res, true
+	case <-time.After(hard - soft + time.Millisecond):
+	}
+	return res, false
+}
+
 func execDecode(req DecodeReq) DecodeRes {
-	if safeInProcess(req) {
-		return runDecode(req)
+	if safeInProcess(req) && !inProcessUnsafe {
+		if res, ok := runWatched(req); ok {
+			return res
+		}
+		// The verdict (hang, or timeout under load) comes from the child, which can be killed; the in-process wait
+		// already was the long one, so the child waits in fail-fast mode.
+		inProcessUnsafe = true
+		childMu.Lock()
+		childHangSeen = true
+		childMu.Unlock()
 	}
 	return inChild(req)
 }
